@@ -234,6 +234,15 @@ pub fn run(ctx: &Ctx, rec: &mut Rec) {
             bad.push((e.l, "coords:valid"));
             let (x, y) = (rand_below(&mut rng, &f.p), rand_below(&mut rng, &f.p));
             bad.push((from_raw(&x, &y, &b(1), &f.mul(&x, &y)), "coords:off-curve"));
+            // off the curve but with the ratio x/y of a valid element: (lx, ly) for l = 2, -1/2, random; decaf
+            // equality only sees the ratio, so only the curve equation can reject these
+            for l in [b(2), f.neg(&f.inv(&b(2)).unwrap()), rand_below(&mut rng, &f.p)] {
+                if l == b(0) || l == b(1) || l == f.neg(&b(1)) {
+                    continue;
+                }
+                let (sx, sy) = (f.mul(&l, &e.m.x), f.mul(&l, &e.m.y));
+                bad.push((from_raw(&sx, &sy, &b(1), &f.mul(&sx, &sy)), "coords:off-curve"));
+            }
             // on-curve x of e with a wrong y, and inconsistent T
             bad.push((from_raw(&e.m.x, &f.add(&e.m.y, &b(1)), &b(1), &f.mul(&e.m.x, &e.m.y)), "coords:off-curve"));
         }
